@@ -1,2 +1,4 @@
 pub mod e2_overlay;
 pub mod e2_views;
+pub mod e3_bank;
+pub mod e6_codec;
